@@ -287,6 +287,23 @@ func checkC20(c c20Case) error {
 					return fmt.Errorf("%s: error %T %v, want a ParamExpError or an ArithExprError", step, gerr, gerr)
 				}
 			}
+		case "arithassign":
+			// ${name:=$c20_src} inside an arithmetic expansion: what is stored
+			// is the value of the word, as everywhere
+			env.Set("c20_src", "3")
+			model["c20_src"] = "3"
+			cmd, _, err := parser.ParseCommand("c20", "_ "+op.Src)
+			if err != nil {
+				return fmt.Errorf("harness: %q: %v", op.Src, err)
+			}
+			w := cmd.(*ast.Cmd).Expr.(*ast.SimpleCmd).Args[1]
+			before, wasSet := c20Expected(op.Name, model, c.Args, env.Opts)
+			if e := guard(func() error { env.Expand(w, 0); return nil }); e != nil {
+				return fmt.Errorf("%s: Expand %v", step, e)
+			}
+			if needed := !wasSet || before == "" && strings.Contains(op.Src, ":="); needed && !c20Special(op.Name) {
+				model[op.Name] = "3"
+			}
 		case "arith":
 			// the expression as an arithmetic expansion, expanded twice from the
 			// same parsed word
@@ -434,6 +451,24 @@ var c20Exprs = map[string]*ref.ANode{
 	"(0 ? (_x = 3) : 4) + (b = _x)": {Kind: "bin", Op: "+",
 		A: &ref.ANode{Kind: "cond", A: &ref.ANode{Kind: "num", S: "0"}, B: &ref.ANode{Kind: "asg", Op: "=", S: "_x", A: &ref.ANode{Kind: "num", S: "3"}}, C: &ref.ANode{Kind: "num", S: "4"}},
 		B: &ref.ANode{Kind: "asg", Op: "=", S: "b", A: &ref.ANode{Kind: "var", S: "_x"}}},
+	// the left operand of || is a variable that the right operand changes
+	"(a || (a = 1)) && (b = 2)": {Kind: "bin", Op: "&&",
+		A: &ref.ANode{Kind: "bin", Op: "||", A: &ref.ANode{Kind: "var", S: "a"}, B: &ref.ANode{Kind: "asg", Op: "=", S: "a", A: &ref.ANode{Kind: "num", S: "1"}}},
+		B: &ref.ANode{Kind: "asg", Op: "=", S: "b", A: &ref.ANode{Kind: "num", S: "2"}}},
+	"(_x || ++_x) ? (A = 1) : (b = 2)": {Kind: "cond",
+		A: &ref.ANode{Kind: "bin", Op: "||", A: &ref.ANode{Kind: "var", S: "_x"}, B: &ref.ANode{Kind: "preinc", S: "_x"}},
+		B: &ref.ANode{Kind: "asg", Op: "=", S: "A", A: &ref.ANode{Kind: "num", S: "1"}},
+		C: &ref.ANode{Kind: "asg", Op: "=", S: "b", A: &ref.ANode{Kind: "num", S: "2"}}},
+	"(b && (b = 0)) || (_x = 4)": {Kind: "bin", Op: "||",
+		A: &ref.ANode{Kind: "bin", Op: "&&", A: &ref.ANode{Kind: "var", S: "b"}, B: &ref.ANode{Kind: "asg", Op: "=", S: "b", A: &ref.ANode{Kind: "num", S: "0"}}},
+		B: &ref.ANode{Kind: "asg", Op: "=", S: "_x", A: &ref.ANode{Kind: "num", S: "4"}}},
+	// a fault in an operand that is not evaluated, then an assignment that is
+	"(0 && 08) + (_x = 1)": {Kind: "bin", Op: "+",
+		A: &ref.ANode{Kind: "bin", Op: "&&", A: &ref.ANode{Kind: "num", S: "0"}, B: &ref.ANode{Kind: "num", S: "08"}},
+		B: &ref.ANode{Kind: "asg", Op: "=", S: "_x", A: &ref.ANode{Kind: "num", S: "1"}}},
+	"(1 || 7++) + (b += 1)": {Kind: "bin", Op: "+",
+		A: &ref.ANode{Kind: "bin", Op: "||", A: &ref.ANode{Kind: "num", S: "1"}, B: &ref.ANode{Kind: "postinc", S: "7"}},
+		B: &ref.ANode{Kind: "asg", Op: "+=", S: "b", A: &ref.ANode{Kind: "num", S: "1"}}},
 	// not expressions (nil): a syntax error, also inside an operand that is not evaluated
 	"0 && (1 +":  nil,
 	"1 || (2 *":  nil,
@@ -558,6 +593,10 @@ func TestC20(t *testing.T) {
 				}
 				c.Ops = append(c.Ops, c20Op{Kind: "expandw", Src: "${" + name + op + word + "}"})
 				st.Class("expansion_with_a_word_that_assigns_or_fails")
+				if rapid.IntRange(0, 3).Draw(rt, "arithassign") == 0 && !c20Special(name) {
+					form := rapid.SampledFrom([]string{"$((${%s:=$c20_src} + 1))", "$((${%s:=${c20_src}}*2))", `"$((${%s:="$c20_src"}))"`, "$((1 + ${%s=$c20_src}))"}).Draw(rt, "aaform")
+					c.Ops[len(c.Ops)-1] = c20Op{Kind: "arithassign", Name: name, Src: fmt.Sprintf(form, name)}
+				}
 			case 7:
 				c.Ops = append(c.Ops, c20Op{Kind: "get"})
 			case 0:
